@@ -25,7 +25,7 @@ def clearNonNull : GType → GType
   | .named n _ p => .named n false p
   | .list e _ p => .list e false p
 
-def variablesInAllowedPositionStep (_ : Schema) (_ : QueryDoc) (e : Event) : List RErr :=
+def variablesInAllowedPositionStep (_ : SV) (_ : QueryDoc) (e : Event) : List RErr :=
   match e.p, e.cur with
   | .value v (some expected) _, some _ =>
     if v.kind != .variable then []
